@@ -5,14 +5,14 @@ UDP_CASE = "nat * bool * list (uop * uout)"
 def udp_suite(name, mask, monitor=None, count_quick=480, count_thorough=6000):
     return dict(name=name, harness="udp-swarm", imports=["UdpCheck", "Consts", "Monitors"], case_type=UDP_CASE,
                 check="udp_code %d udp_small_cap" % mask, monitor=monitor,
-                count_quick=count_quick, count_thorough=count_thorough, nontrivial_bits=3)
+                count_quick=count_quick, count_thorough=count_thorough, nontrivial_bits=3, search_count=2400)
 
 HTTP_CASE = "nat * nat * list (hop * hout)"
 
 def http_suite(name, mask, monitor=None, count_quick=400, count_thorough=5000):
     return dict(name=name, harness="http-swarm", imports=["HttpCheck", "Consts", "Monitors"], case_type=HTTP_CASE,
                 check="http_code %d http_small_cap" % mask, monitor=monitor,
-                count_quick=count_quick, count_thorough=count_thorough, nontrivial_bits=3)
+                count_quick=count_quick, count_thorough=count_thorough, nontrivial_bits=3, search_count=2400)
 
 WS_CASE = "nat * nat * N * N * list (wop * list wout)"
 
